@@ -238,6 +238,9 @@ func (b *Built) build(s *Spec) (res error) {
 		return errors.CombineErrors(c, xs[0])
 	case "wrapferr":
 		return errors.Wrapf(c, "lit "+esc(S(0))+" e=%v", xs[0])
+	case "wrapferrprec":
+		// the error-typed argument printed with a precision
+		return errors.Wrapf(c, "lit "+esc(S(0))+" e=%.12v", xs[0])
 	case "wrapfgosyntax":
 		return errors.Wrapf(c, "lit "+esc(S(0))+" e=%#v", xs[0])
 	case "handled":
